@@ -622,6 +622,13 @@ var (
 func gate(point string, kv []any) {
 	switch point {
 	case "persist.computed", "merge.begin", "merge.computed":
+		if h := spanHold.Load(); h != nil && point == "persist.computed" {
+			spanParked.Add(1)
+			select {
+			case <-*h:
+			case <-time.After(200 * time.Millisecond):
+			}
+		}
 		if loadPending.Load() {
 			if ch := loadDone.Load(); ch != nil {
 				loadParked.Add(1)
@@ -792,6 +799,10 @@ func spanningTran(r *rand.Rand) {
 	if ut == nil {
 		return
 	}
+	if r.Intn(2) == 0 {
+		spanOvertaken(r, t, ut)
+		return
+	}
 	// something else commits and is persisted while ut is open
 	for i := 0; i < 1+r.Intn(2); i++ {
 		tranOp(r)
@@ -811,9 +822,84 @@ func spanningTran(r *rand.Rand) {
 	}
 }
 
+// spanOvertaken: the table the open transaction ut is going to write is changed and
+// persisted (once or twice) by others; then ut commits while the merger is busy with a
+// ticker persist, long enough for the ticker to fire again, so that the next persist may
+// run BEFORE the merge of ut's commit
+var (
+	spanHold   atomic.Pointer[chan struct{}]
+	spanParked atomic.Int32
+	curIvl     time.Duration
+)
+
+var freshKey = 1000
+var spanOften = os.Getenv("VERIF_SPAN_OFTEN") != ""
+
+// freshRec: a record for t with a key nobody else uses
+func freshRec(r *rand.Rand, t tbl) core.Record {
+	var rb core.RecordBuilder
+	for _, c := range t.cols {
+		switch {
+		case c == t.key:
+			freshKey++
+			rb.Add(core.IntVal(freshKey))
+		case strings.HasSuffix(c, "-") || r.Intn(3) == 0:
+			rb.AddRaw("")
+		default:
+			rb.Add(core.IntVal(r.Intn(6)))
+		}
+	}
+	return rb.Trim().Build()
+}
+
+func spanOvertaken(r *rand.Rand, t tbl, ut *db19.UpdateTran) {
+	th := &core.Thread{}
+	writeTo := func() {
+		if w := db.NewUpdateTran(); w != nil {
+			try(func() { w.Output(th, t.name, freshRec(r, t)) })
+			if w.Complete() == "" {
+				tr.Emit(vh.E("Committed"))
+			}
+		}
+	}
+	for i := 0; i < 2+r.Intn(3); i++ {
+		writeTo()
+		db.Persist()
+	}
+	// the persist that is held saves some other table
+	ts := currentTables()
+	o := ts[r.Intn(len(ts))]
+	if w := db.NewUpdateTran(); w != nil && o.name != t.name {
+		try(func() { w.Output(th, o.name, freshRec(r, o)) })
+		if w.Complete() == "" {
+			tr.Emit(vh.E("Committed"))
+		}
+	} else if w != nil {
+		w.Abort()
+	}
+	time.Sleep(2 * time.Millisecond)
+	hold := make(chan struct{})
+	spanParked.Store(0)
+	spanHold.Store(&hold)
+	for i := 0; i < 60 && spanParked.Load() == 0; i++ {
+		time.Sleep(time.Millisecond)
+	}
+	try(func() { ut.Output(th, t.name, freshRec(r, t)) })
+	if ut.Complete() == "" {
+		tr.Emit(vh.E("Committed"))
+	}
+	time.Sleep(curIvl + 2*time.Millisecond)
+	if os.Getenv("VERIF_DEBUG") != "" {
+		fmt.Fprintln(os.Stderr, "spanOvertaken parked", spanParked.Load(), "npers", npers, "ivl", curIvl)
+	}
+	spanHold.Store(nil)
+	close(hold)
+	time.Sleep(time.Duration(1+r.Intn(5)) * time.Millisecond)
+}
+
 func history(r *rand.Rand, steps int) {
 	for i := 0; i < steps; i++ {
-		if r.Intn(14) == 0 {
+		if r.Intn(9) == 0 || (spanOften && r.Intn(3) == 0) {
 			spanningTran(r)
 			continue
 		}
@@ -869,7 +955,8 @@ func scenario(r *rand.Rand, sn int, mode string, ntrials int, tot map[string]int
 	}
 	vh.SetSink(sink)
 	vh.SetGate(gate)
-	db19.StartConcur(db, time.Duration(4+r.Intn(20))*time.Millisecond)
+	curIvl = time.Duration(4+r.Intn(20)) * time.Millisecond
+	db19.StartConcur(db, curIvl)
 	tr.Emit(vh.E("Created", "statelen", db19.VerifStateLen, "tail", db19.VerifTailSize))
 	manyPersists = mode == "crash" || mode == "asof"
 	dumpMode = mode == "dump" || mode == "all"
@@ -925,7 +1012,8 @@ func scenario(r *rand.Rand, sn int, mode string, ntrials int, tot map[string]int
 		dig, agree = logicalDigest(db)
 		tr.Emit(vh.E("Reopen", "res", "ok", "dig", dig, "agree", agree, "check", ck))
 		if round < rounds-1 {
-			db19.StartConcur(db, time.Duration(4+r.Intn(20))*time.Millisecond)
+			curIvl = time.Duration(4+r.Intn(20)) * time.Millisecond
+			db19.StartConcur(db, curIvl)
 		}
 	}
 	tot["persists"] += npers
